@@ -39,12 +39,36 @@ def modelledShared : List (String × String) := [
     "class-level dispatch table, complete when the class body has run (definition time) and only read afterwards"),
   ("class-object|ssb_converting/decompiler/write_handlers/simple_op.py|SimpleOperationWriteHandler._ssb_operations_special_cases_handlers:dict|unshadowed,subscript@def",
     "class-level dispatch table, complete when the class body has run (definition time) and only read afterwards"),
+  ("identity-key|ssb_converting/compiler/compiler_visitor/statement_visitor.py|StatementVisitor._push_handler|id",
+    "object identity / hash used as a value (logging, __hash__, visited-set of handler objects): not modelled, covered by the multi-hash-seed references and the history exploration"),
+  ("identity-key|ssb_converting/decompiler/graph_building/graph_utils.py|find_first_common_next_vertex_in_edges__clear_cache|id",
+    "id(graph) as the key of the memo table: the recyclable `Gid` of ESV/Cache/Model.lean"),
+  ("identity-key|ssb_converting/decompiler/graph_building/graph_utils.py|find_first_common_next_vertex_in_edges|id",
+    "id(graph) as the key of the memo table: the recyclable `Gid` of ESV/Cache/Model.lean"),
+  ("identity-key|ssb_converting/decompiler/write_handlers/label_jumps/if_start.py|IfWriteHandler._build_else_if_chain|id",
+    "object identity / hash used as a value (logging, __hash__, visited-set of handler objects): not modelled, covered by the multi-hash-seed references and the history exploration"),
+  ("identity-key|ssb_converting/decompiler/write_handlers/label_jumps/if_start.py|IfWriteHandler.write_content|id",
+    "object identity / hash used as a value (logging, __hash__, visited-set of handler objects): not modelled, covered by the multi-hash-seed references and the history exploration"),
+  ("identity-key|ssb_converting/ssb_compiler.py|ExplorerScriptSsbCompiler._compile|id",
+    "object identity / hash used as a value (logging, __hash__, visited-set of handler objects): not modelled, covered by the multi-hash-seed references and the history exploration"),
+  ("identity-key|ssb_converting/ssb_data_types.py|SsbRoutineInfo.__hash__|hash",
+    "object identity / hash used as a value (logging, __hash__, visited-set of handler objects): not modelled, covered by the multi-hash-seed references and the history exploration"),
   ("module-object|ssb_converting/decompiler/graph_building/graph_utils.py|cache_lock:instance:Lock|with@fn",
     "the lock: its `with` blocks are the atomic sections of ESV/Cache/Threads.lean"),
   ("module-object|ssb_converting/decompiler/graph_building/graph_utils.py|find_first_common_next_vertex_in_edges_cache:dict|subscript@fn",
     "the memo table: `Memo` of ESV/Cache/Model.lean; written only by subscript assignment inside the locked sections (lookup, store, clear)"),
   ("module-object|ssb_converting/ssb_special_ops.py|OPS_WITH_JUMP_TO_MEM_OFFSET:dict|method:update@def",
-    "constant table completed at module level (definition time); never written by a function")]
+    "constant table completed at module level (definition time); never written by a function"),
+  ("set-iteration|ssb_converting/decompiler/graph_building/graph_minimizer.py|SsbGraphMinimizer._build_loops__try_loop|comprehension:name:breaks_set",
+    "iteration order may depend on element hashes (ints: deterministic; strings: PYTHONHASHSEED; objects: addresses): not modelled, covered by the multi-hash-seed references of ./check C11"),
+  ("set-iteration|ssb_converting/decompiler/graph_building/graph_utils.py|_find_first_common_next_vertex_in_edges__impl|for:name:should_remove",
+    "iteration order may depend on element hashes (ints: deterministic; strings: PYTHONHASHSEED; objects: addresses): not modelled, covered by the multi-hash-seed references of ./check C11"),
+  ("set-iteration|ssb_converting/decompiler/graph_building/graph_utils.py|_find_first_common_next_vertex_in_edges__impl|pop:name:intersection_result",
+    "iteration order may depend on element hashes (ints: deterministic; strings: PYTHONHASHSEED; objects: addresses): not modelled, covered by the multi-hash-seed references of ./check C11"),
+  ("set-iteration|ssb_converting/decompiler/graph_building/graph_utils.py|find_end_label_in_edges|comprehension:name:vs",
+    "iteration order may depend on element hashes (ints: deterministic; strings: PYTHONHASHSEED; objects: addresses): not modelled, covered by the multi-hash-seed references of ./check C11"),
+  ("set-iteration|ssb_converting/decompiler/graph_building/graph_utils.py|get_out_edges_of_subgraph|for:set-op",
+    "iteration order may depend on element hashes (ints: deterministic; strings: PYTHONHASHSEED; objects: addresses): not modelled, covered by the multi-hash-seed references of ./check C11")]
 
 def modelledSharedKeys : List String := modelledShared.map (·.1)
 
